@@ -7,6 +7,8 @@ import (
 	"fmt"
 	"os"
 	"time"
+
+	simrt "github.com/douban/gobeansdb/zzsimrt"
 )
 
 // Minimiser: shrinks the plan (operations, values, configuration) and the schedule / fault
@@ -38,6 +40,26 @@ func (m *minimiser) test(p *Plan, sched, fault []int32) *Violation {
 		return out.Violation
 	}
 	return nil
+}
+
+// research: a concurrent plan changed by the minimiser usually invalidates the recorded
+// schedule tape (choices are positional). Search a few fresh seeded schedules for the changed
+// plan; if one reproduces the violation class, adopt the plan together with its new tapes.
+func (m *minimiser) research(p *Plan, n int) (*Violation, []int32, []int32) {
+	e := engines[p.Prop]
+	for i := 0; i < n; i++ {
+		if time.Now().After(m.deadline) {
+			return nil, nil, nil
+		}
+		m.tries++
+		tape := simrt.NewTape(p.Seed + uint64(i+1)*7919 + uint64(m.tries)*104729)
+		out := e.run(clonePlan(p), tape)
+		if out.Violation != nil && out.Violation.Class() == m.class {
+			m.accepted++
+			return out.Violation, out.Tapes[simrt.StreamSched], out.Tapes[simrt.StreamFault]
+		}
+	}
+	return nil, nil, nil
 }
 
 func zeros(n int) []int32 { return make([]int32, n) }
@@ -78,6 +100,15 @@ func (m *minimiser) run() {
 				if v := m.test(cand, rf.Sched, rf.Fault); v != nil {
 					rf.Plan = cand
 					rf.Violation = v
+				} else if len(rf.Plan.Clients) > 0 && chunk <= 8 {
+					if v, sc, fa := m.research(cand, 4); v != nil {
+						rf.Plan = cand
+						rf.Violation = v
+						rf.Sched = sc
+						rf.Fault = fa
+					} else {
+						start += chunk
+					}
 				} else {
 					start += chunk
 				}
